@@ -1233,6 +1233,12 @@ class ABCPropertyGraph(ABCPropertyGraphConstants):
         assert lsliver.node_id is not None
         assert interfaces is not None
 
+        # every interface must be in the graph before the Link node is added, so that
+        # a bad interface id does not leave a half-connected Link behind
+        interfaces = list(interfaces)
+        for i in interfaces:
+            self.get_node_properties(node_id=i)
+
         props = self.link_sliver_to_graph_properties_dict(lsliver)
         self.add_node(node_id=lsliver.node_id, label=ABCPropertyGraph.CLASS_Link, props=props)
         # add edge links to specified interfaces
